@@ -35,7 +35,8 @@ def run(ctx):
     units = [(n, pools.units[n]) for n in pools.unit_names]
     # shard the table by unit
     my_units = [x for i, x in enumerate(units) if i % ctx.nshards == ctx.shard]
-    mags = [3, -7, 2.5, 1000, 0]
+    from decimal import Decimal
+    mags = [3, -7, 2.5, 1000, 0, Decimal("2.5"), Decimal("-1E+40"), Decimal("7E-30"), 10**30 + 1, Decimal("123456789012345678901234567.8")]
     for uname, u in my_units:
         for pname, p in prefixes:
             pv = oracle.prefix_value(p)
@@ -65,7 +66,11 @@ def run(ctx):
             for mag in mags:
                 q = mag * pu
                 ctx.count("identities/quantity_of_prefixed_unit")
-                un = q.unprefixed()
+                try:
+                    un = q.unprefixed()
+                except Exception as e:
+                    ctx.violation(f"C11:raised:{type(e).__name__}", f"({mag!r} {pname}*{uname}).unprefixed() raised {type(e).__name__}: {e}", {"prefix": pname, "unit": uname, "mag": repr(mag)})
+                    continue
                 if un.unit.prefix is not Identity:
                     ctx.violation("C11:unprefixed-keeps-a-prefix", f"({mag} {pname}*{uname}).unprefixed() = {un!r}", {})
                 expected = oracle.F(mag) * pv * oracle.prefix_value(u.prefix)
